@@ -474,7 +474,54 @@ def units(tier):
     z2_units(U)
     element_operator_units(U)
     small_multifield_units(U, thorough)
+    z2_element_units(U)
     return U
+
+
+def z2_element_units(U):
+    """Z2_field_element: conversions and operators (arithmetic modulo 2 on the stored bit)"""
+    Z2E = F + "Z2_field.h"
+    CLS = "Z2_field_element"
+    SAME = r"std::is_same_v<\w+, bool>"
+    G = "typedef struct { bool element_; } Z2_field_element;\n"
+    par = {"int": lambda x: f"(({x} & 1) != 0)", "unsigned int": lambda x: f"(({x} & 1u) != 0)", "bool": lambda x: x}
+    gv_sig = r"static constexpr Element _get_value\(Integer_type e\)"
+    for T in ("int", "unsigned int", "bool"):
+        fn = Fn(Z2E, gv_sig, "_get_value", f"__CPROVER_ensures(__CPROVER_return_value == {par[T]('e')})\n__CPROVER_assigns()\n",
+                constexpr=[(SAME, T == "bool")], canary=((r"e % 2", "e / 2") if T != "bool" else None))
+        U.append(Unit(f"z2_el._get_value.{T.replace(' ', '_')}", "C10", [fn], enforce="_get_value", typedefs={"Element": "bool", "Integer_type": T}, globals_=G,
+                      inputs=["in_e"], harness=H(f"  {T} in_e = nondet_uint();", "_get_value(in_e);"),
+                      desc=f"Z2_field_element::_get_value<{T}>: the parity of the integer, negative ones included"))
+    ee = [("add_assign", r"\+=", "!="), ("sub_assign", r"-=", "!="), ("mul_assign", r"\*=", "&&")]
+    for name, opre, op in ee:
+        con = f"__CPROVER_ensures(f1->element_ == (__CPROVER_old(f1->element_) {op} f2.element_))\n__CPROVER_assigns(f1->element_)\n"
+        fn = Fn(Z2E, rf"friend void operator{opre}\({CLS}& f1, {CLS} const& f2\)", name, con, sig_subs=[(rf"operator{opre}", name)],
+                canary=(r"\(\*f1\)\.element_ = \(([^;]*)\);", r"(*f1).element_ = !(\1);"))
+        U.append(Unit(f"z2_el.operator.{name}", "C10", [fn], enforce=name, typedefs={"Element": "bool"}, globals_=G, inputs=["in_a", "in_b"],
+                      harness=H(f"  {CLS} in_a, in_b; in_a.element_ = nondet_uint() & 1; in_b.element_ = nondet_uint() & 1; {CLS} x_a = in_a;", f"{name}(&x_a, in_b);"),
+                      desc=f"Z2_field_element operator{opre.replace(chr(92), '')} on two elements: arithmetic modulo 2"))
+    for T in ("int", "unsigned int"):
+        td = {"Element": "bool", "Integer_type": T}
+        gv = Fn(Z2E, gv_sig, "_get_value", "", constexpr=[(SAME, False)])
+        for name, opre, op in ee:
+            con = f"__CPROVER_ensures(f->element_ == (__CPROVER_old(f->element_) {op} {par[T]('v')}))\n__CPROVER_assigns(f->element_)\n"
+            fn = Fn(Z2E, rf"friend void operator{opre}\({CLS}& f, const Integer_type& v\)", name, con, sig_subs=[(rf"operator{opre}", name)],
+                    canary=(r"_get_value\(v\)", "(v != 0)"))
+            U.append(Unit(f"z2_el.operator.{name}_{T.replace(' ', '_')}", "C10", [gv, fn], enforce=name, typedefs=td, globals_=G, inputs=["in_a", "in_v"],
+                          harness=H(f"  {CLS} in_a; in_a.element_ = nondet_uint() & 1; {T} in_v = nondet_uint(); {CLS} x_a = in_a;", f"{name}(&x_a, in_v);"),
+                          desc=f"Z2_field_element operator{opre.replace(chr(92), '')} with a {T}: the integer contributes its parity"))
+        for name, opre, op, vsig in (("int_plus", r"\+", "!=", r"const Integer_type& v, const Z2_field_element& f"), ("int_minus", r"-", "!=", r"const Integer_type v, Z2_field_element const& f"),
+                                    ("int_times", r"\*", "&&", r"const Integer_type& v, Z2_field_element const& f")):
+            con = f"__CPROVER_ensures((__CPROVER_return_value != 0) == (f.element_ {op} {par[T]('v')}))\n__CPROVER_ensures(__CPROVER_return_value == 0 || __CPROVER_return_value == 1)\n__CPROVER_assigns()\n"
+            fn = Fn(Z2E, rf"friend Integer_type operator{opre}\({vsig}\)", name, con, sig_subs=[(rf"operator{opre}(?=\()", name)], canary=(r"_get_value\(v\)", "(v != 0)"))
+            U.append(Unit(f"z2_el.operator.{name}_{T.replace(' ', '_')}", "C10", [gv, fn], enforce=name, typedefs=td, globals_=G, inputs=["in_a", "in_v"],
+                          harness=H(f"  {CLS} in_a; in_a.element_ = nondet_uint() & 1; {T} in_v = nondet_uint();", f"{name}(in_v, in_a);"),
+                          desc=f"{T} {opre.replace(chr(92), '')} Z2_field_element: 0 or 1, the result modulo 2"))
+        con = f"__CPROVER_ensures(__CPROVER_return_value == ({par[T]('v')} == f.element_))\n__CPROVER_assigns()\n"
+        fn = Fn(Z2E, rf"friend bool operator==\(const Integer_type& v, const {CLS}& f\)", "eq_int", con, sig_subs=[(r"operator==", "eq_int")], canary=(r"==", "!="))
+        U.append(Unit(f"z2_el.operator.eq_{T.replace(' ', '_')}", "C10", [gv, fn], enforce="eq_int", typedefs=td, globals_=G, inputs=["in_a", "in_v"],
+                      harness=H(f"  {CLS} in_a; in_a.element_ = nondet_uint() & 1; {T} in_v = nondet_uint();", "eq_int(in_v, in_a);"),
+                      desc=f"{T} == Z2_field_element: comparison by residue"))
 
 
 # ------------------------------------------------------------------------------------------------ small multi-field, end to end
